@@ -16,7 +16,7 @@ CLAIMED = {
    "deterministic simulation: multi-resource I/O on a simulated transport with decoys, differential oracle + I/O history check, torn/lost fragment faults", "4/C06"),
  "C07": ("exploration",
    "Seeded stored-content corruption (truncate, drop/dup/swap line, flip to every metacharacter, token insert/delete, a line copied into another resource, a name %define-d in two resources), all 512 include graphs over three files x 4 variants enumerated with a textual-inclusion oracle, missing fragments, open errors and corrupted override specifiers against real loaders (memory and real-file backends, real http.client); read failures after a successful open, very long lines, application datatypes rejecting with every shape of ValueError; oracle: only ConfigurationError-family exceptions escape; validator.main status/stderr agree with direct loads.",
-   "Datatypes reject with ValueError; as an injected fault an application datatype raises an error of its own class, which must leave the load unchanged; transport errors after a successful open and file objects that do not yield text are out of scope of the statement.",
+   "Datatypes reject with ValueError; as an injected fault an application datatype raises an error of its own class, which must leave the load unchanged; read failures after a successful open (URL resources, files the validator was given) must end in a configuration error; a load started by a datatype on the busy ConfigLoader (re-entrancy) and warnings turned into errors are part of the environment; a tenth of the budget runs under python -O.",
    "deterministic simulation: seeded storage-corruption and open-fault injection, exception-class oracle", "4/C07"),
  "C08": ("fault_enumeration",
    "For every sampled scenario (schema, accepted text, 1..4 resources, entry mode) every applicable (resource, position, typed fault kind) injection is executed and the raised error must carry the culprit's line and URL. Entry by URL, file object (with / without URL), reused loader (every injection follows earlier rejected loads) or with an override. Exhaustive over the failure points of each scenario, sampled over scenarios.",
